@@ -8,3 +8,6 @@ pub mod c15;
 pub mod sctp_props;
 pub mod dtls_sim;
 pub mod explorer;
+pub mod c07;
+pub mod c07live;
+pub mod c17sctp;
